@@ -11,6 +11,9 @@ CHECKS = {
  "C02": ("fault_enumeration", "exhaustive truncation enumeration over proptest-generated archives (scaled constants: every length x 2 modes; production: windows around every structural boundary + spread sample), repair output judged against the model",
          "Every prefix of generated archives (all layer sets, levels, interleavings) is repaired in both modes and the repaired archive is re-read: no panic, output opens, names are original names, contents are prefixes, files not reported unfinished are complete, end-of-data status implies completeness. Exhaustive in the truncation length on the scaled build, so thin failing sets (15 lengths per chunk) are met by construction.",
          "Archives are a generated sample; the scaled build assumes the layer algorithms depend on the constants only through their order/divisibility; production windows are +-24 bytes.", "DESIGN.md section 4 C02"),
+ "C04": ("fault_enumeration", "fault enumeration (every byte of every chunk on scaled constants; chunk swap/dup/delete; truncation inside chunks) over generated encrypted archives incl. adversarial record/chunk alignments, judged by a metamorphic relation between authenticated repair, unauthenticated repair and repair of the intact prefix",
+         "For every fault with first damaged chunk j, authenticated repair A of the damaged archive must output only prefixes of original files, nothing that the intact archive cut after j chunks does not already yield (so nothing decoded at or after the failed chunk is used), and must be a prefix of the unauthenticated repair U of the same damaged archive. Layouts where a content record of an open file ends exactly on a chunk edge and a complete file follows are generated on purpose (the shape that hides a swallowed authentication failure).",
+         "Faults whose first damaged chunk is chunk 0 are excluded by construction and reported as the open finding chunk0-loaded-unauthenticated; T_j relies on unauthenticated repair being complete (C05).", "DESIGN.md section 4 C04"),
  "C05": ("fault_enumeration", "model-based completeness and monotonicity check of repair over generated intact archives and all their prefixes",
          "Intact generated archives (compressed streams crossing 0..n block boundaries, all levels and entropies, flushes and piece ends on block edges) must repair completely with the end-of-data status; over the ordered truncation lengths no file may shrink; without compression the recovered bytes must equal the bytes whose records lie in the usable part of the stream computed from the model layout.",
          "Usable-bytes computation trusts the record sizes of FORMAT.md and the chunk geometry; production prefixes are windows, not all lengths.", "DESIGN.md section 4 C05"),
